@@ -143,7 +143,7 @@ class ParseTheory(CompilerTheory):
         return {'avc'}
 
     def mk_param(self, ex, st, n, sort, sub):
-        if sort in ('PE', 'SP', 'TT', 'TTL'):
+        if sort in ('PE', 'SP', 'TT', 'TTL', 'CL'):
             e = ex.fresh(sort, n)
             if sub:
                 st.assume('((_ is %s) %s)' % (sub, e))
@@ -153,6 +153,8 @@ class ParseTheory(CompilerTheory):
         return self._sup('mk_param', ex, st, n, sort, sub)
 
     def mk_ret(self, ex, sort, e, st):
+        if sort == 'ClauseAst':
+            return SV('ClauseAst', e)
         if sort in ('TA', 'TAL'):
             return SV(sort, e)
         if sort == 'Str':
@@ -182,9 +184,11 @@ class ParseTheory(CompilerTheory):
         return self._sup('attr_read', ex, base, attr, st, node)
 
     def attr_write(self, ex, base, attr, v, st, node):
+        if base.sort == 'ClauseAst' and attr == 'ctx':
+            return [(st, None)]        # bookkeeping reference to the parse-tree node (used for error positions only)
         if base.sort == 'CSelf' and attr == 'anonymousVariableCounter' and v.sort == 'Int':
             st.comp['avc'] = v.e
-            return True
+            return [(st, None)]
         return self._sup('attr_write', ex, base, attr, v, st, node)
 
     def isinstance(self, ex, v, cls, st, node):
@@ -233,6 +237,8 @@ class ParseTheory(CompilerTheory):
             return [(st, SV('TA', '(TAPair %s %s)' % (args[0].e, args[1].e)))]
         if name == 'len' and so == ['TAL']:
             return [(st, SV('Int', '(talen %s)' % args[0].e))]
+        if name == 'Clause' and so == ['Body', 'Body']:
+            return [(st, SV('ClauseAst', None, {'head': args[0], 'body': args[1]}))]
         if name == 'Predicate' and so == ['TA']:
             ex.oblige(st, 'safety.predicate_of_functor', '((_ is TAFun) %s)' % args[0].e, 'safety')
             return [(st, SV('Body', '(predof %s)' % args[0].e))]
@@ -261,6 +267,15 @@ class ParseTheory(CompilerTheory):
                     return [(st, SV('PE', ITE(is_('PENeg'), '(pen %s)' % b, ITE(is_('PEBin'), '(pel %s)' % b, '(pep %s)' % b))))]
                 ex.oblige(st, 'safety.child1_present', is_('PEBin'), 'safety')
                 return [(st, SV('PE', '(per %s)' % b))]
+        if base.sort == 'CL' and not args:
+            if meth == 'simplepredicate':
+                return [(st, SV('SP', '(clhd %s)' % b))]
+            if meth == 'predicateexpression':
+                return [(st, SV('OptPE', '(clbody %s)' % b, {'none': NOT(is_('CLRule'))}))]
+        if base.sort == 'Body' and meth == 'name' and not args:
+            # Predicate.name(): only Predicate objects have it
+            ex.oblige(st, 'safety.name_of_predicate', OR(is_('BPred'), is_('BCutIf')), 'safety')
+            return [(st, SV('Str', core.ITE(is_('BCutIf'), smt_str('$CUTIF'), '(tafname (predta (pid %s)))' % b)))]
         if base.sort == 'SP' and not args:
             tok = {'TRUE': 'SPTrue', 'FAIL': 'SPFail', 'CUT': 'SPCut'}
             if meth in tok:
@@ -337,6 +352,9 @@ class ParseTheory(CompilerTheory):
         if want0 == 'TT' and a.sort == 'OptTT':
             ex.oblige(st, 'safety.child_present', NOT(a.meta['none']), 'safety')
             return SV('TT', a.e)
+        if want0 == 'PE' and a.sort == 'OptPE':
+            ex.oblige(st, 'safety.body_present', NOT(a.meta['none']), 'safety')
+            return SV('PE', a.e)
         if want0 == 'TTL' and a.sort == 'OptTTL':
             ex.oblige(st, 'safety.termlist_present', NOT(a.meta['none']), 'safety')
             return SV('TTL', a.e)
